@@ -415,6 +415,29 @@ static void build_apis(void)
     add_api("hkdf_sha512_extract", sizeof(crypto_kdf_hkdf_sha512_state), 64, 393, 5, i_hk512, u_hk512, f_hk512, r_hk512);
 }
 
+/* state objects at every address class a caller may legitimately use: offsets 0, 16, 32, 48 from a 64-byte boundary (malloc gives 16-byte
+ * alignment; crypto_*_statebytes() + malloc is the documented way to allocate states) - and 8, 24, 40, 56 for the states whose type has no
+ * stricter alignment than 8.  Two updates + final at several lengths, against the reference. */
+static void state_align(long ai)
+{
+    static const size_t LENS[] = { 0, 1, 63, 64, 65, 127, 128, 129, 200, 257 }; const sapi *A = &APIS[ai]; void *raw = NULL; unsigned off, li; unsigned char m[300], out[64], want[64]; char key[160];
+    size_t S = A->statesz; int strict = !strcmp(A->name, "generichash") || !strcmp(A->name, "onetimeauth");      /* these two types carry an alignment attribute (64 / 16) */
+    if (posix_memalign(&raw, 64, S + 128)) exit(2);
+    gh_cur = A->param; vf_pat(m, sizeof m, PAT_R2, 131);
+    for (off = 0; off < 64; off += 8) {
+        unsigned char *st = (unsigned char *) raw + off;
+        if (off % 16 && strict) continue;
+        snprintf(vf_ctx, sizeof vf_ctx, "state-alignment/%s/param=%d/state-offset=%u", A->name, A->param, off);
+        for (li = 0; li < sizeof LENS / sizeof LENS[0]; li++) {
+            size_t len = LENS[li] <= A->N ? LENS[li] : A->N, cut = len / 3;
+            memset(st, 0xEE, S); A->init(st, A->param); A->update(st, m, cut); A->update(st, m + cut, len - cut); memset(out, 0, 64); A->final(st, out);
+            A->ref(want, m, len, A->param); n_eval++; n_nontriv++;
+            if (memcmp(out, want, A->outlen)) { snprintf(key, sizeof key, "state-alignment/%s/param=%d/state-offset=%u/len=%zu", A->name, A->param, off, len); vf_fail(key, "got %s want %s", vf_hex(out, A->outlen), vf_hex(want, A->outlen)); }
+        }
+    }
+    free(raw);
+}
+
 #define POISON 0xDD
 /* E-graph: node t = canonical state image after absorbing M[0:t]; bytes that differ between two paths to the same offset are
  * "path-dependent": they are overwritten with POISON in the canonical image, so every later transition and every final() runs on
@@ -494,6 +517,8 @@ int main(void)
     poly_cases_load(); if (pc_n) vf_parallel(16, 0, 16, poly_cases_slice, fin);
     vf_stat("poly_cases_built_backwards", (unsigned long long) pc_n);
     vf_parallel(16, 0, napis, graph_api, fin);
+    strcpy(vf_ctx, "c04 state-alignment family (a crash here = a state at a 16-byte-aligned address was not handled)");
+    vf_parallel(16, 0, napis, state_align, fin);
     refusals(); null_inputs(); fin();
     vf_sample("sha512 chunk graph: message of 393 bytes, node t = canonical state after M[0:t], edge = update(M[t:u]) for every t<u, final() checked at every node");
     vf_sample("onetimeauth crafted: r=1 s=0 msg = ff*16 || ff*16 || ff*10 (accumulator sums of 2^128-1 blocks, partial final block)");
